@@ -697,4 +697,36 @@ theorem lands_string_path (c c' : Column) (hsrc : stringContains c = true) (hs :
         simp [purePathCell, Cell.ofObj, Cell.blank, this]
       | raises cls => rw [hwv] at hy; cases hy
 
+
+/-- the named hypotheses under which the pandas relations land (each validated by α on every
+generated column): a complex cell is missing iff its payload is NaN; a `str` element is never
+missing; `pd.to_datetime` on the whole column finds a timestamp (library hypothesis) -/
+structure LandsHyp (o : ColOracle) (c : Column) : Prop where
+  pay : ∀ x ∈ c.cells, PayWF x
+  strNotNull : StrNotNull c
+  dt : DtLands o c
+
+/-- L3 for all 14 inference relations of the generated table -/
+theorem lands_pandas (o : ColOracle) (src dst : Ty) (g : Column → R Bool) (t : Column → R Column)
+    (hg : guard o src dst = some g) (ht : xform o src dst = some t)
+    (c c' : Column) (hyp : LandsHyp o c) (hsrc : containsB src c = true)
+    (hacc : g c = .ok true) (hx : t c = .ok c') : containsB dst c' = true := by
+  unfold guard at hg
+  unfold xform at ht
+  split at hg <;> (try cases hg) <;> simp only at ht <;> cases ht
+  · exact lands_object_boolean c c' hsrc hx
+  · exact lands_string_boolean c c' hsrc hacc hx
+  · exact lands_string_complex c c' hsrc hx
+  · exact lands_string_datetime o c c' hyp.dt hx
+  · exact lands_string_float c c' hacc hx
+  · exact lands_complex_float c c' hyp.pay hsrc hacc hx
+  · exact lands_float_integer c c' hsrc hx
+  · exact lands_datetime_date c c' hsrc hacc hx
+  · exact lands_string_geometry c c' hsrc hyp.strNotNull hx
+  · exact lands_string_ip c c' hsrc hyp.strNotNull hx
+  · exact lands_string_path c c' hsrc hyp.strNotNull hacc hx
+  · exact lands_string_url c c' hsrc hyp.strNotNull hx
+  · exact lands_string_uuid c c' hsrc hyp.strNotNull hx
+  · exact lands_string_email c c' hsrc hyp.strNotNull hx
+
 end V.Pd
